@@ -31,6 +31,17 @@ fn json_families() -> Vec<(Value, Vec<&'static str>)> {
     ]
 }
 
+/// grammars whose lexemes contain one sibling slice but only part of another
+fn lark_families() -> Vec<(Gram, Vec<&'static str>, Option<Vec<&'static str>>)> {
+    vec![
+        (Gram::Lark("start: (LINE \"\\n\")+\nLINE: /[^\\n]+/\n".into()), vec!["some text here\nand\tmore \r\n", "\t\t", " \t", "\r\n", " \n", "text"], None),
+        (Gram::Lark("start: /.*/\n".into()), vec!["any thing\tat all \r", "\t\t", " \t", "thing"], None),
+        (Gram::Lark("start: /[0-9]+/ | \"abc\" | \"  \"\n".into()), vec!["12345", "abc", "  ", "ab", "34", " \t", "\n"], Some(vec!["[a-z]+", "[0-9]+", "[ \\t\\n]+"])),
+        (Gram::Lark("start: W (\" \" W)*\nW: /[a-z]+/ | /[0-9]{1,3}/\n".into()), vec!["abc 12 de 345", "bc", "12", " d", "e 3"], Some(vec!["[a-z]+", "[0-9]+", "[a-z0-9]+", " +"])),
+        (Gram::Lark("start: \"<\" /[a-z ]+/ \">\" /[0-9\\t]*/\n".into()), vec!["<hello world>12\t3", "lo w", "\t3", ">1"], Some(vec!["[a-z]+", "[a-z ]+", "[0-9]+", "[ \\t]+"])),
+    ]
+}
+
 fn random_slices(rng: &mut Rng) -> Vec<String> {
     let pool = [
         r#"[a-z]+"#, r#"[a-z]{1,3}"#, r#"[a-z ]{1,8}"#, r#"[a-c]+"#, r#"[a-f0-9]+"#, r#"[^"\\\x00-\x1F\x7F]{1,5}"#,
@@ -53,6 +64,12 @@ pub fn gen_case(rng: &mut Rng, idx: usize, thorough: bool) -> Value {
         0 => json!(SlicedBiasComputer::general_slices()),
         _ => json!(random_slices(rng)),
     };
+    if idx % 4 == 1 {
+        let fams = lark_families();
+        let (g, t, sl) = &fams[(idx / 4) % fams.len()];
+        let slices = match sl { Some(v) => json!(v), None => json!(SlicedBiasComputer::general_slices()) };
+        return json!({"grammar": g.to_json(), "texts": t.iter().map(|s| vocab::hex(s.as_bytes())).collect::<Vec<_>>(), "slices": slices, "seed": rng.next() % 1_000_000_000, "steps": steps});
+    }
     if idx % 2 == 0 {
         let fams = json_families();
         let (g, t) = &fams[(idx / 2) % fams.len()];
@@ -62,9 +79,18 @@ pub fn gen_case(rng: &mut Rng, idx: usize, thorough: bool) -> Value {
     json!({"grammar": g.to_json(), "texts": texts.iter().map(|t| vocab::hex(t)).collect::<Vec<_>>(), "slices": slices, "seed": rng.next() % 1_000_000_000, "steps": steps})
 }
 
-fn slice_sexp(s: &VerifSlice) -> String {
-    let kids: Vec<String> = s.children.iter().map(slice_sexp).collect();
-    format!("(n {} {}{}{})", s.idx, show_list(&s.mask_with_children), if kids.is_empty() { "" } else { " " }, kids.join(" "))
+/// masks are sent without the ids of empty vocabulary entries (a trie never holds them)
+fn slice_sexp(s: &VerifSlice, nonempty: &dyn Fn(u32) -> bool) -> String {
+    let kids: Vec<String> = s.children.iter().map(|c| slice_sexp(c, nonempty)).collect();
+    let m: Vec<u32> = s.mask_with_children.iter().copied().filter(|t| nonempty(*t)).collect();
+    format!("(n {} {}{}{})", s.idx, show_list(&m), if kids.is_empty() { "" } else { " " }, kids.join(" "))
+}
+
+/// the remainder tries of every node vs the sets the Lean model walks
+fn push_parts(s: &VerifSlice, tag: usize, mb: &mut ModelBatch) {
+    let exp = format!("ok {}|{}", s.trie_without_child.iter().map(|l| show_list(l)).collect::<Vec<_>>().join(";"), show_list(&s.trie_without_children));
+    mb.push(format!("slice parts {}", s.idx), exp, tag);
+    for c in &s.children { push_parts(c, tag, mb); }
 }
 
 fn find_slice<'a>(s: &'a VerifSlice, idx: usize) -> Option<&'a VerifSlice> {
@@ -98,7 +124,20 @@ pub fn run_case(_ctx: &Ctx, case: &Value, tag: usize, rep: &mut Report, mb: &mut
     }
     let tree = w_sliced.fac.slicer().verif_dump();
     mb.push("reset".into(), "ok".into(), tag);
-    mb.push(format!("slice tree {}", slice_sexp(&tree)), "ok".into(), tag);
+    let ne = |t: u32| !w_plain.words[t as usize].is_empty();
+    mb.push(format!("slice tree {}", slice_sexp(&tree, &ne)), "ok".into(), tag);
+    push_parts(&tree, tag, mb);
+    // every trie is a filter of the vocabulary: trie_with_children holds exactly the (non-empty) mask
+    {
+        fn chk(s: &VerifSlice, ne: &dyn Fn(u32) -> bool, rep: &mut Report, case: &Value) {
+            let m: Vec<u32> = s.mask_with_children.iter().copied().filter(|t| ne(*t)).collect();
+            if m != s.trie_with_children {
+                rep.fail("model", "c10:trie-with-children", format!("slice {}: trie_with_children does not hold exactly its mask", s.idx), case.clone());
+            }
+            for c in &s.children { chk(c, ne, rep, case); }
+        }
+        chk(&tree, &ne, rep, case);
+    }
     let mut toks: Vec<u32> = vec![];
     for step in 0..steps {
         if a.is_stopped() || b.is_stopped() {
